@@ -67,6 +67,12 @@ func blow(s string) string {
 	return strings.NewReplacer("x", "tools/internal", "y", "Pkg_y:+12,+0x3f").Replace(s)
 }
 
+// blow2 does the same with multi-byte words and bytes that are not UTF-8
+// (none of their bytes is one of the three meaningful characters).
+func blow2(s string) string {
+	return strings.NewReplacer("x", "世界/パス", "y", "Fn\xff\xfeÄ:+12,+0x3f").Replace(s)
+}
+
 func clip(s string) string {
 	if len(s) > 600 {
 		return s[:600] + "..."
@@ -123,15 +129,25 @@ func TestVerifC15Dec(t *testing.T) {
 		return true
 	}
 	for _, v := range in.Strings {
-		if !check(v.ID, v.S, v.Dec, false) || !check(v.ID, blow(v.S), blow(v.Dec), false) {
+		if !check(v.ID, v.S, v.Dec, false) || !check(v.ID, blow(v.S), blow(v.Dec), false) || !check(v.ID, blow2(v.S), blow2(v.Dec), false) {
 			break
 		}
 	}
 	for _, v := range in.Valid {
-		if !check(v.ID, v.Enc, v.Unc, true) || !check(v.ID, blow(v.Enc), blow(v.Unc), true) {
+		if !check(v.ID, v.Enc, v.Unc, true) || !check(v.ID, blow(v.Enc), blow(v.Unc), true) || !check(v.ID, blow2(v.Enc), blow2(v.Unc), true) {
 			break
 		}
 	}
+	// sizes: empty, one character, a megabyte without newline, 200 000 dittoed
+	// lines, a 100 KB import path restored 200 times
+	big := strings.Repeat("x", 1<<20)
+	for i, s := range []string{"", "\n", "\"", ".", big, big + ".f"} {
+		want := s
+		check(9000000+i, s, want, true)
+	}
+	check(9000010, "p\na.f"+strings.Repeat("\n\".g", 200000), "p\na.f"+strings.Repeat("\na.g", 200000), true)
+	mid := big[:100000]
+	check(9000011, "p\n"+mid+".f"+strings.Repeat("\n\".g", 200), "p\n"+mid+".f"+strings.Repeat("\n"+mid+".g", 200), true)
 	rt.Out(rt.M{"kind": "summary", "evaluated": n, "mismatches": bad, "diverge": diverge})
 }
 
@@ -203,6 +219,11 @@ func drive(ch []int) {
 	tab.Sink++
 }
 
+type scKey struct {
+	prefix string
+	depth  int
+}
+
 type stackRec struct {
 	chain chainIn
 	sc    *counter.StackCounter
@@ -246,7 +267,8 @@ func TestVerifC15Enc(t *testing.T) {
 		t.Fatal(err)
 	}
 	os.WriteFile(filepath.Join(telemetry.Default.LocalDir(), "weekends"), []byte("3\n"), 0666)
-	counter.CounterTime = func() time.Time { return time.Date(2024, 2, 27, 10, 0, 0, 0, time.UTC) }
+	now := time.Date(2024, 2, 27, 10, 0, 0, 0, time.UTC)
+	counter.CounterTime = func() time.Time { return now }
 	var f counter.VFile
 	f.Rotate1()
 	if err := f.Err(); err != nil || !f.HasCurrent() {
@@ -266,7 +288,7 @@ func TestVerifC15Enc(t *testing.T) {
 			short = append(short, n)
 		}
 	}
-	prefixes := []string{"c15/stack", "gopls.bug", "crash/crash", "a.b/c-d:e"}
+	prefixes := []string{"c15/stack", "gopls.bug", "crash/crash", "a.b/c-d:e", "", "ünï/cödé"}
 	id := 2000000
 	for i := 0; i < in.Random; i++ {
 		n := 1 + rng.Intn(8)
@@ -309,6 +331,31 @@ func TestVerifC15Enc(t *testing.T) {
 	// counter names of every length 1..64: a cut at a fixed byte offset visits
 	// every byte of a frame line, inside 2-, 3- and 4-byte runes too
 	if len(in.Chains) > 0 {
+		// ---- how many frames the counter records: none, fewer than the chain has
+		// (two chains that differ only below the recorded part are ONE stack), all,
+		// more (down to runtime.goexit)
+		id := 1660000
+		for _, fns := range [][]string{{"x.X", "y.Y", "x.Y", "y.x.X"}, {"x.X", "y.Y", "x.Y", "y.X"}, {"x.Y", "y.Y", "x.Y", "y.X"}} {
+			for _, extra := range []int{-4, -3, -2, -1, 0, 1, 10} {
+				in.Chains = append(in.Chains, chainIn{ID: id, Fns: fns, Prefix: "c15/depth", Extra: extra, Src: "depth"})
+				id++
+			}
+		}
+		// ---- inlined frames (one PC, several frames) as leaf, in the middle, outermost
+		for _, fns := range [][]string{{"x.Inl1"}, {"x.Inl2"}, {"x.Inl1", "x.X"}, {"x.X", "x.Inl1", "y.Y"}, {"x.X", "x.Inl2"},
+			{"x.Inl2", "x.Inl1", "x.Inl2", "y.X"}, {"y.x.X", "x.Inl2", "x.Inl2", "x.Inl1"}, {"nodot.x", "x.Inl1", "nodot.y"}} {
+			for _, extra := range []int{-1, 0, 1, 3} {
+				in.Chains = append(in.Chains, chainIn{ID: id, Fns: fns, Prefix: "c15/inl", Extra: extra, Src: "inline"})
+				id++
+			}
+		}
+		// ---- counter names: empty, and so long that the name is cut inside them
+		for _, n := range []int{0, 4080, 4084, 4085, 4086, 4096, 5000} {
+			for _, fns := range [][]string{{"x.X"}, {"x.X", "y.Y"}} {
+				in.Chains = append(in.Chains, chainIn{ID: id, Fns: fns, Prefix: strings.Repeat("q", n), Src: "prefix"})
+				id++
+			}
+		}
 		same := []string{"x.u3", "x.u2", "x.u4", "x.um"}
 		alt := []string{"x.u3", "y.x.u4", "x.um", "y.x.u2", "x.u4", "y.x.u3"}
 		for l := 1; l <= 64; l++ {
@@ -322,14 +369,47 @@ func TestVerifC15Enc(t *testing.T) {
 		}
 	}
 
-	type scKey struct {
-		prefix string
-		depth  int
-	}
 	scs := map[scKey]*counter.StackCounter{}
 	seen := map[string]*stackRec{}
 	var recs []*stackRec
 	problems := 0
+	// runChain runs one chain twice from the one call site of drive: first into
+	// the harness' own pcGrab (which stack is this? -- decided from the captured
+	// PCs alone), then into the real stack counter.
+	runChain := func(c chainIn, key scKey, sc *counter.StackCounter, ch []int) {
+		grab := &pcGrab{depth: key.depth}
+		var r *stackRec
+		var skey string
+		for g := 0; g < 2; g++ {
+			tab.C = sc
+			if g == 0 {
+				tab.C = grab
+			}
+			n0 := len(sc.Counters())
+			drive(ch) // the one call site of every chain
+			if g == 0 {
+				skey = fmt.Sprint(key, grab.pcs)
+				r = seen[skey]
+				continue
+			}
+			n1 := len(sc.Counters())
+			switch {
+			case r == nil && n1 == n0+1:
+				r = &stackRec{chain: c, sc: sc, idx: n0, pcs: grab.pcs, runs: 1, once: true}
+				seen[skey] = r
+				recs = append(recs, r)
+			case r == nil:
+				// a new call stack did not get a counter of its own
+				problems++
+				rt.Out(rt.M{"kind": "cache", "what": "new-stack-no-new-counter", "chain": c.Fns, "depth": key.depth, "before": n0, "after": n1})
+			default:
+				r.runs++
+				if n1 != n0 {
+					r.once = false
+				}
+			}
+		}
+	}
 	for pass := 0; pass < 3; pass++ { // every chain runs twice, the second time after all others
 		work := in.Chains
 		if pass == 2 {
@@ -374,47 +454,72 @@ func TestVerifC15Enc(t *testing.T) {
 			if !ok {
 				t.Fatalf("unknown library function in %v", c.Fns)
 			}
-			key := scKey{c.Prefix, len(c.Fns) + c.Extra}
+			depth := len(c.Fns) + c.Extra // Extra < 0: the counter records fewer frames than the chain has
+			if depth < 0 {
+				depth = 0
+			}
+			key := scKey{c.Prefix, depth}
 			sc := scs[key]
 			if sc == nil {
 				sc = f.NewStack(c.Prefix, key.depth)
 				scs[key] = sc
 			}
-			ckey := fmt.Sprint(key, strings.Join(c.Fns, ","))
-			grab := &pcGrab{depth: key.depth}
-			for g := 0; g < 2; g++ {
-				tab.C = sc
-				if g == 1 {
-					tab.C = grab // second run of a new chain: record its PCs
-				}
-				n0 := len(sc.Counters())
-				drive(ch) // the one call site of every chain
-				if g == 1 {
-					seen[ckey].pcs = grab.pcs
-					break
-				}
-				n1 := len(sc.Counters())
-				r := seen[ckey]
-				switch {
-				case r == nil && n1 == n0+1:
-					r = &stackRec{chain: c, sc: sc, idx: n0, runs: 1, once: true}
-					seen[ckey] = r
-					recs = append(recs, r)
-					continue
-				case r == nil:
-					// a new call stack did not get a counter of its own
-					problems++
-					rt.Out(rt.M{"kind": "cache", "what": "new-stack-no-new-counter", "chain": c.Fns, "depth": key.depth, "before": n0, "after": n1})
-				default:
-					r.runs++
-					if n1 != n0 {
-						r.once = false
-					}
-				}
-				break
-			}
+			runChain(c, key, sc, ch)
 		}
 	}
+	idsOf := func(fns ...string) []int {
+		ch := make([]int, len(fns))
+		for i, n := range fns {
+			ch[len(ch)-1-i] = tab.Index[n]
+		}
+		return ch
+	}
+	cacheProblem := func(what string, extra rt.M) {
+		problems++
+		m := rt.M{"kind": "cache", "what": what}
+		for k, v := range extra {
+			m[k] = v
+		}
+		rt.Out(m)
+	}
+	// ---- the same new stack incremented from several goroutines at once
+	// (many rounds, each on a fresh stack counter of the same name, all
+	// goroutines released together)
+	chConc := idsOf("x.X", "y.Y")
+	const nRounds, nG = 300, 8
+	var scConc *counter.StackCounter
+	worst := 1
+	for round := 0; round < nRounds; round++ {
+		scConc = f.NewStack("c15/conc", 2)
+		tab.C = scConc
+		start, done := make(chan bool), make(chan bool)
+		for g := 0; g < nG; g++ {
+			go func() {
+				<-start
+				drive(chConc)
+				done <- true
+			}()
+		}
+		close(start)
+		for g := 0; g < nG; g++ {
+			<-done
+		}
+		if n := len(scConc.Counters()); n > worst {
+			worst = n
+		}
+	}
+	if worst != 1 {
+		cacheProblem("concurrent-increments-of-one-stack-several-counters", rt.M{"counters": worst})
+	}
+	// ---- two StackCounter values of one name and depth: one counter on file
+	scT1, scT2 := f.NewStack("c15/twin", 2), f.NewStack("c15/twin", 2)
+	chTwin := idsOf("x.X", "x.Y") // one package: the second frame is abbreviated
+	gT := &pcGrab{depth: 2}
+	for _, c := range []tab.Incer{gT, scT1, scT2, scT2} {
+		tab.C = c
+		drive(chTwin)
+	}
+	uncTwin := strings.Join(uncompressed("c15/twin", gT.pcs), "\n")
 
 	// ---- what the file decoder sees
 	_, fileStacks, ferr := counter.ReadFile(f.CurrentName())
@@ -425,6 +530,27 @@ func TestVerifC15Enc(t *testing.T) {
 	raw := map[string]uint64{}
 	if data, err := counter.ReadMapped(f.CurrentName()); err == nil {
 		raw = rt.DecodeV1(data).Counts()
+	}
+
+	if c1, c2 := scT1.Counters(), scT2.Counters(); len(c1) != 1 || len(c2) != 1 || c1[0].Name() != c2[0].Name() {
+		cacheProblem("two-stack-counters-of-one-name-disagree", rt.M{"n1": len(c1), "n2": len(c2)})
+	} else {
+		if v := raw[c1[0].Name()]; v != 3 {
+			cacheProblem("two-stack-counters-of-one-name-wrong-sum", rt.M{"value": v, "want": 3})
+		}
+		// the stack-counter API: Names and ReadStack (expanded names)
+		if ns := scT1.Names(); len(ns) != 1 || ns[0] != c1[0].Name() {
+			cacheProblem("Names-differs-from-Counters", rt.M{"names": ns})
+		}
+		m, err := counter.ReadStack(scT1)
+		if err != nil || len(m) != 1 || m[uncTwin] != 3 {
+			cacheProblem("ReadStack-does-not-list-the-expanded-name", rt.M{"err": fmt.Sprint(err), "got": fmt.Sprint(m), "want": uncTwin})
+		}
+	}
+	if cs := scConc.Counters(); len(cs) == 1 {
+		if v := raw[cs[0].Name()]; v != nRounds*nG {
+			cacheProblem("concurrent-increments-lost", rt.M{"value": v, "want": nRounds * nG})
+		}
 	}
 
 	// ---- one record per distinct stack
@@ -520,16 +646,17 @@ func TestVerifC15Enc(t *testing.T) {
 		for i := 0; !differ && i < len(ia.pcs); i++ {
 			differ = ia.pcs[i] != ib.pcs[i]
 		}
-		// do the two chains differ only in which instantiation of a generic they go through?
-		strip := func(fns []string) string {
-			var out []string
-			for _, f := range fns {
-				out = append(out, strings.SplitN(f, "#", 2)[0])
+		// do the two RECORDED stacks differ only in which instantiation of a
+		// generic function they go through?  (every differing PC lies in a function
+		// of the same printed name, which carries "[...]")
+		generic := differ && len(ia.pcs) == len(ib.pcs) && a.sc == b.sc
+		for i := 0; generic && i < len(ia.pcs); i++ {
+			if ia.pcs[i] == ib.pcs[i] {
+				continue
 			}
-			return strings.Join(out, ",")
+			fa, fb := runtime.FuncForPC(ia.pcs[i]-1), runtime.FuncForPC(ib.pcs[i]-1)
+			generic = fa != nil && fb != nil && fa.Name() == fb.Name() && strings.Contains(fa.Name(), "[...]") && fa.Entry() != fb.Entry()
 		}
-		generic := strip(a.chain.Fns) == strip(b.chain.Fns) && strings.Join(a.chain.Fns, ",") != strings.Join(b.chain.Fns, ",") &&
-			a.chain.Prefix == b.chain.Prefix && a.chain.Extra == b.chain.Extra
 		rt.Out(rt.M{"kind": "rec", "t": "pair", "id": a.chain.ID, "id2": b.chain.ID, "fns": a.chain.Fns, "fns2": b.chain.Fns, "generic": generic,
 			"differ": differ, "untrunc": !ia.marked && !ib.marked, "samename": ia.name == ib.name,
 			"samerender": strings.Join(ia.unc, "\n") == strings.Join(ib.unc, "\n"), "name": clip(ia.name)})
@@ -542,6 +669,22 @@ func TestVerifC15Enc(t *testing.T) {
 	}
 	for i := 0; i+1 < len(recs) && i < 4000; i++ {
 		pair(recs[i], recs[(i*7+1)%len(recs)])
+	}
+	// ---- a second counter file (the week is over): the same stack still hits
+	// its one counter, and the new file lists it under the same expanded name
+	oldName := f.CurrentName()
+	now = now.Add(8 * 24 * time.Hour)
+	f.Rotate1()
+	if err := f.Err(); err != nil || f.CurrentName() == oldName {
+		rt.Out(rt.M{"kind": "note", "what": "no second counter file", "err": fmt.Sprint(err)})
+	} else {
+		tab.C = scT1
+		drive(chTwin)
+		drive(chTwin)
+		_, st2, err := counter.ReadFile(f.CurrentName())
+		if n := len(scT1.Counters()); n != 1 || err != nil || st2[uncTwin] != 2 {
+			cacheProblem("after-rotation-same-stack-not-one-counter", rt.M{"counters": n, "err": fmt.Sprint(err), "value": st2[uncTwin], "want": 2})
+		}
 	}
 	rt.Out(rt.M{"kind": "summary", "chains": len(in.Chains), "stacks": len(recs), "truncated": nTrunc, "toolong": nLong, "pairs": npairs,
 		"counters": len(scs), "problems": problems, "file_names": len(fileStacks)})
